@@ -87,15 +87,15 @@ func (it *Interp) allocOracle(ev AllocEvent) {
 	over := it.ctx.ULT(it.ctx.BV(it.job.AllocLimit, 64), ev.Bytes)
 	// also the count itself beyond 2^40 (multiplication wrap)
 	over = it.ctx.Or(over, it.ctx.ULT(it.ctx.BV(1<<40, 64), ev.Count))
-	it.job.noteAssert("alloc@" + it.curFn)
+	it.job.noteAssert("alloc@" + it.fnName())
 	r, m := it.sat(over)
 	switch r {
 	case "sat":
-		it.violations = append(it.violations, Violation{Msg: "allocation sized by input exceeds the proportionality bound", Site: it.curFn, Model: m, Kind: "alloc", Decisions: append([]int{}, it.taken...)})
+		it.violations = append(it.violations, Violation{Msg: "allocation sized by input exceeds the proportionality bound", Site: it.fnName(), Model: m, Kind: "alloc", Decisions: append([]int{}, it.taken...)})
 	case "unsat":
-		it.job.noteDischarged(it, it.ctx.Not(over), "allocation bounded at "+it.curFn)
+		it.job.noteDischarged(it, it.ctx.Not(over), "allocation bounded at "+it.fnName())
 	default:
-		it.job.noteUnknown("alloc@" + it.curFn)
+		it.job.noteUnknown("alloc@" + it.fnName())
 	}
 }
 
